@@ -126,7 +126,22 @@ def benign(src):
             print('      ', k, v['first'][:230])
 
 
+def eval_benign():
+    base = os.path.join(SEEDED, 'benign')
+    for n in sorted(os.listdir(base)):
+        patch = os.path.join(base, n, 'patch.diff')
+        res = evaluate(patch)
+        bad = {k: v for k, v in res.items() if v['exit'] != 0}
+        mp = os.path.join(base, n, 'meta.json')
+        m = json.load(open(mp))
+        m['checks_not_silent'] = bad
+        json.dump(m, open(mp, 'w'), indent=1)
+        print(n, 'SILENT' if not bad else 'ALARM ' + ', '.join('%s(exit %d) %s' % (k, v['exit'], v['first'][:160]) for k, v in bad.items()))
+
+
 def main():
+    if sys.argv[1] == 'eval-benign':
+        return eval_benign()
     if sys.argv[1] == 'benign':
         for s in sys.argv[2:]:
             benign(s)
